@@ -32,3 +32,15 @@ mod c06;
 mod c07;
 #[cfg(kani)]
 mod c10;
+#[cfg(kani)]
+mod c08;
+#[cfg(kani)]
+mod c01;
+#[cfg(kani)]
+mod c17;
+#[cfg(kani)]
+mod c18;
+#[cfg(kani)]
+mod c19;
+#[cfg(kani)]
+mod c20;
